@@ -298,6 +298,17 @@ func runC18(w *World, r *Report) {
 				}
 			}
 			for _, l := range lhs {
+				// a store to the whole builder value through a pointer (*states = CTStates{}) writes both words
+				if _, isAddr := n.(*ast.UnaryExpr); !isAddr {
+					if st, ok := unparen(l).(*ast.StarExpr); ok {
+						if lt := fi.Pkg.TypesInfo.TypeOf(st); lt != nil && types.Identical(lt, named) {
+							nw++
+							if !isMethod {
+								r.Fail(VViolation, "writers", fi.Key, "whole", w.Pos(l.Pos()), "assigns the whole builder through a pointer outside the builder's own methods: both words are overwritten, so the calls made before are forgotten")
+							}
+						}
+					}
+				}
 				se, ok := unparen(l).(*ast.SelectorExpr)
 				if !ok {
 					continue
